@@ -10,6 +10,7 @@
    All statements quantify over the oracle tables (what YAML parsing sees), the chooser (Go's map
    iteration order), the fuel, all three arguments, ALL fault positions and all well-formed states. *)
 From KV Require Import Fs.LocPath Fs.LocPathProofs Fs.Localize Fs.LocalizeProofs Fs.LocalizeExamples.
+Open Scope list_scope.
 
 (* Every mkdir / write that any run attempts — whatever fails, wherever — targets a path inside
    newDir; RemoveAll is only applied to newDir itself or to "" (the no-op of defect (a)). *)
@@ -80,3 +81,64 @@ Print Assumptions C18_all_or_nothing_refuted_4.
 Theorem C18_all_or_nothing_refuted : ~ all_or_nothing_law.
 Proof. exact all_or_nothing_law_false. Qed.
 Print Assumptions C18_all_or_nothing_refuted.
+
+(* ---- obligations over the tables regenerated from /repo (Gen/LocalizeTables.v) ---- *)
+
+Theorem C18_Gen_kust_names_good : forallb good_comp gen_kust_file_names = true.
+Proof. exact Gen_kust_names_good. Qed.
+Print Assumptions C18_Gen_kust_names_good.
+
+Theorem C18_Gen_native_map_fields :
+  gen_native_map_fields =
+  [("bases", "kust.Bases", "lc.localizeRoot");
+   ("components", "kust.Components", "lc.localizeRoot");
+   ("configurations", "kust.Configurations", "lc.localizeFile");
+   ("crds", "kust.Crds", "lc.localizeFile");
+   ("resources", "kust.Resources", "lc.localizeResource")].
+Proof. exact Gen_native_map_fields. Qed.
+Print Assumptions C18_Gen_native_map_fields.
+
+Theorem C18_Gen_plugin_map_fields :
+  gen_plugin_map_fields =
+  [("generators", "kust.Generators"); ("transformers", "kust.Transformers"); ("validators", "kust.Validators")].
+Proof. exact Gen_plugin_map_fields. Qed.
+Print Assumptions C18_Gen_plugin_map_fields.
+
+Theorem C18_Gen_native_calls :
+  gen_native_calls =
+  [("localizeFile", "path");
+   ("localizeGenerator", "&kust.ConfigMapGenerator[i].GeneratorArgs");
+   ("localizeGenerator", "&kust.SecretGenerator[i].GeneratorArgs");
+   ("localizeHelmInflationGenerator", "kust");
+   ("localizeHelmCharts", "kust");
+   ("localizePatches", "kust.Patches");
+   ("localizePatches", "kust.PatchesJson6902");
+   ("localizeK8sResource", "string(patch)");
+   ("localizeFile", "replacement.Path")].
+Proof. exact Gen_native_calls. Qed.
+Print Assumptions C18_Gen_native_calls.
+
+Theorem C18_Gen_plugin_specs :
+  gen_plugin_specs =
+  [("0", "ConfigMapGenerator", "env"); ("0", "ConfigMapGenerator", "envs");
+   ("0", "SecretGenerator", "env"); ("0", "SecretGenerator", "envs");
+   ("0", "HelmChartInflationGenerator", "valuesFile");
+   ("0", "HelmChartInflationGenerator", "additionalValuesFiles");
+   ("0", "PatchTransformer", "path"); ("0", "PatchJson6902Transformer", "path");
+   ("0", "ReplacementTransformer", "replacements/path");
+   ("1", "ConfigMapGenerator", "files"); ("1", "SecretGenerator", "files");
+   ("2", "PatchStrategicMergeTransformer", "paths")] /\
+  gen_plugin_spec_fns =
+  [("0", "lbp.lc.localizeFile"); ("1", "lbp.lc.localizeFileSource"); ("2", "lbp.lc.localizeK8sResource")].
+Proof. exact Gen_plugin_specs. Qed.
+Print Assumptions C18_Gen_plugin_specs.
+
+Theorem C18_Gen_fatal_sites :
+  List.map (fun t => (fst (fst t), snd (fst t))) gen_fatal_sites =
+  [("Run", "log.Panicf"); ("localizeRoot", "log.Panicf"); ("localizeRoot", "log.Panicf");
+   ("copyChartHome", "log.Panicf"); ("copyChartHome", "log.Panicf"); ("copyDir", "log.Panicf");
+   ("hasRef", "log.Fatalf"); ("cleanedRelativePath", "log.Fatalf"); ("cleanedRelativePath", "log.Fatalf");
+   ("locFilePath", "log.Panicf"); ("locRootPath", "log.Panicf"); ("locRootPath", "log.Panicf");
+   ("locRootPath", "log.Panicf")].
+Proof. exact Gen_fatal_sites. Qed.
+Print Assumptions C18_Gen_fatal_sites.
